@@ -18,7 +18,9 @@ C1 == CHOOSE c \in Client : TRUE
 E == Scripts[sid][pc]
 More == pc <= Len(Scripts[sid])
 AllH == Cat(layers)
-KTid(k) == IF k >= 1 /\ k <= Len(AllH) THEN AllH[k].tid
+\* (k >= K: a concrete tid - every tid is at least K, no history has K transactions; used by recorded replays)
+KTid(k) == IF k >= K THEN k
+           ELSE IF k >= 1 /\ k <= Len(AllH) THEN AllH[k].tid
            ELSE IF k <= -1 /\ Len(AllH) + k + 1 >= 1 THEN AllH[Len(AllH) + k + 1].tid ELSE 0
 CurSer(o) == LET l == QLoad(layers, Top, o) IN IF l.k = "rev" THEN l.serial ELSE 0
 \* (a transaction that did not write the object does not name a serial of it: the current one is meant)
